@@ -231,6 +231,48 @@ Section Entries.
   Qed.
 End Entries.
 
+(* ------------------------------------------------------------------ histories with a changing world *)
+Definition world_ok (fs : node) (cwd : rpath) : Prop :=
+  (exists a e, get fs cwd = Some (Dir a e)) /\ Forall entry_name cwd.
+
+Fixpoint worlds_ok (ops : list wop) : Prop :=
+  match ops with
+  | [] => True
+  | World f c :: r => world_ok f c /\ worlds_ok r
+  | TOp _ :: r => worlds_ok r
+  end.
+
+Theorem world_history_reads_contained kf pf :
+  forall ops fs cwd t l, world_ok fs cwd -> worlds_ok ops ->
+  wrun kf pf ops fs cwd t = Some l ->
+  forall fs' cwd' b ev r, In (fs', cwd', b, ev, r) l ->
+  forall rp ino, In (EvRead rp ino) ev ->
+  b <> [] -> forall rb nb, kstr kf fs' cwd' (parse b) true = Some (rb, nb) ->
+  (exists suf, rp = rb ++ suf) /\ exists nl data, get fs' rp = Some (File ino nl data) /\ (nl <= 1)%N.
+Proof.
+  induction ops as [|o ops IH]; intros fs cwd t l Hw Hws Hrun fs' cwd' b ev r Hin rp ino Hrd Hb rb nb Hkb.
+  - inversion Hrun; subst. contradiction.
+  - destruct o as [o|f c]; simpl in Hrun.
+    + destruct (step kf fs cwd pf o t) as [[[t1 ev1] r1]|] eqn:Es; [|discriminate].
+      destruct (wrun kf pf ops fs cwd t1) as [l1|] eqn:Er; [|discriminate].
+      inversion Hrun; subst. destruct Hin as [Hin|Hin].
+      * inversion Hin; subst.
+        destruct Hw as [[a [e Hcwd]] Hcg].
+        destruct (every_entry_checked _ _ _ _ _ _ _ _ _ Es) as [Hsh _].
+        inversion Hsh; subst; simpl in Hrd.
+        -- contradiction.
+        -- destruct Hrd as [Hx|[]]; discriminate.
+        -- destruct Hrd as [Hx|[Hx|[]]]; discriminate.
+        -- destruct Hrd as [Hx|[Hx|[Hx|[]]]]; try discriminate. inversion Hx; subst.
+           destruct (contained_open _ _ _ _ _ _ _ _ _ _ _ _ _ Hcwd Hcg Hb H Hkb H0) as [P [nl [G L]]].
+           split; [exact P|]. eauto.
+      * eapply (IH fs cwd t1); eauto.
+    + destruct (wrun kf pf ops f c t) as [l1|] eqn:Er; [|discriminate].
+      inversion Hrun; subst. destruct Hws as [Hw' Hws']. destruct Hin as [Hin|Hin].
+      * inversion Hin; subst. contradiction.
+      * eapply (IH f c t); eauto.
+Qed.
+
 (* ------------------------------------------------------------------ load() *)
 Lemma render_nonempty u : is_empty_path u = false -> snd u <> [] -> render u <> [].
 Proof.
